@@ -57,6 +57,40 @@ theorem C04_iff (O : HashOracle) (s k code : Bytes) (sec : Int) (p : Option Para
     have := hw.1.mpr ⟨c', h1, h2, decide_eq_true h3⟩
     rw [hf] at this; cases this
 
+/-- C04 without the side condition `s ≤ n` (any instant from the epoch on): the accepted strings are exactly the codes of
+the steps `(n + j) mod 2^64`, `-s ≤ j ≤ s` — within the first `s` periods after the epoch the window continues at the top of
+the 64-bit range (what `counter + uint64(i)` computes; the js/wasm binding must do the same, C20).  Outside the
+property's stated domain; stated so that the loop as written is characterised for every instant. -/
+theorem C04_iff_wrap (O : HashOracle) (s k code : Bytes) (sec : Int) (p : Option Param)
+    (hs : decodeSecret s = .ok k) (hsk : (resolveTOTP p).skew ≤ 10)
+    (h0 : 0 ≤ sec) (h1 : sec < 2 ^ 63) (hP : per p < 2 ^ 64)
+    (hd1 : 1 ≤ (resolveTOTP p).digits) (hd2 : (resolveTOTP p).digits ≤ 10) (ha : (resolveTOTP p).algo < 3) :
+    (validateTOTP O s code sec p = .ok (true, none) ↔
+      ∃ j : Int, -((resolveTOTP p).skew : Int) ≤ j ∧ j ≤ (resolveTOTP p).skew ∧
+        code = Spec.hotp O.hmac (resolveTOTP p).algo k (((((sec.toNat / per p : Nat) : Int) + j) % (2 ^ 64 : Int)).toNat)
+          (resolveTOTP p).digits) ∧
+    (validateTOTP O s code sec p = .ok (true, none) ∨ validateTOTP O s code sec p = .ok (false, some .invalidCode)) := by
+  rw [validateTOTP_unfold O s k code sec p hs hsk h0 h1 hP]
+  have hchk : (fun c' => accepted (validateRFC4226 O code k c' (resolveTOTP p).digits (resolveTOTP p).algo)) =
+      (fun c' => Out.ok (decide (code = Spec.hotp O.hmac (resolveTOTP p).algo k c' (resolveTOTP p).digits))) := by
+    funext c'; exact accepted_validate_supported O code k c' _ _ hd1 hd2 ha
+  rw [hchk]
+  have hn : sec.toNat / per p < 2 ^ 64 := by
+    have : sec.toNat / per p ≤ sec.toNat := Nat.div_le_self _ _
+    omega
+  have hw := totpWindow_wrap_iff (fun c' => decide (code = Spec.hotp O.hmac (resolveTOTP p).algo k c' (resolveTOTP p).digits))
+    (sec.toNat / per p) (resolveTOTP p).skew hn (by omega)
+  rcases hw.2 with ht | hf
+  · rw [ht]
+    refine ⟨⟨fun _ => ?_, fun _ => rfl⟩, Or.inl rfl⟩
+    obtain ⟨j, h1, h2, h3⟩ := hw.1.mp ht
+    exact ⟨j, h1, h2, of_decide_eq_true h3⟩
+  · rw [hf]
+    refine ⟨⟨fun h => (by cases h), ?_⟩, Or.inr rfl⟩
+    rintro ⟨j, h1, h2, h3⟩
+    have := hw.1.mpr ⟨j, h1, h2, decide_eq_true h3⟩
+    rw [hf] at this; cases this
+
 /-- a code validates at the instant it was generated for -/
 theorem C04_self (O : HashOracle) (s k : Bytes) (sec : Int) (p : Option Param)
     (hs : decodeSecret s = .ok k) (hsk : (resolveTOTP p).skew ≤ 10)
@@ -117,9 +151,13 @@ theorem C04_nil : resolveTOTP none = { digits := 6, period := 30, skew := 0, alg
 
 example : (resolveTOTP none).skew ≤ (59 : Int).toNat / per none := by decide
 
+-- non-vacuity of the wrap clause: at step 0 the offset -1 reaches step 2^64-1
+example : ((((0 : Nat) : Int) + (-1)) % (2 ^ 64 : Int)).toNat = 2 ^ 64 - 1 := by decide
+
 end OtpVerif.Props.C04
 
 #print axioms OtpVerif.Props.C04.C04_iff
+#print axioms OtpVerif.Props.C04.C04_iff_wrap
 #print axioms OtpVerif.Props.C04.C04_self
 #print axioms OtpVerif.Props.C04.C04_skew_refused
 #print axioms OtpVerif.Props.C04.C04_work
